@@ -68,6 +68,9 @@ func init() {
 			fmt.Fprintln(os.Stderr, err)
 			return 1
 		}
+		for _, ft := range fileTranslators {
+			ft(*repo, *out, ex)
+		}
 		b, _ := json.MarshalIndent(ex, "", " ")
 		_ = ioutil.WriteFile(filepath.Join(*out, "extracted.json"), b, 0o644)
 		return 0
@@ -75,3 +78,6 @@ func init() {
 }
 
 var translators []func(repo string, sb *strings.Builder, ex extracted)
+
+// fileTranslators write further Gen/*.v files of their own
+var fileTranslators []func(repo, out string, ex extracted)
